@@ -34,6 +34,13 @@ def proj_c11(obs):
         return ("Ok", ("", ts, out))
     return obs
 
+def proj_c10(obs):
+    """gene_by_name / omim_disease_by_name return SOME matching record (hash order): which one is checked by spec_C10, not compared"""
+    if isinstance(obs, tuple) and obs and obs[0] == "Ok" and isinstance(obs[1], tuple):
+        _, found, it, ln_, qs = obs[1]
+        return ("Ok", ("", found, it, ln_, [("", len(q[1]), q[2], len(q[3])) for q in qs]))
+    return obs
+
 PROPS = {
     "C01": {
         "subs": [sub("C01", "run_C01", "spec_C01", W_IMPORTS + ["Run.C01"], 400, 4000)],
@@ -122,6 +129,16 @@ PROPS = {
                 "for each file: the file itself, EVERY proper prefix, 4 suffixes, 6-12 version bytes; non-trivial = file with both roots",
         "trust": ["harness/src/bin.rs encoder as the definition of 'laid out according to the documented format'"],
         "assumptions": ["v1 terms section shorter than 0x48504F00 bytes (else it is indistinguishable from the magic)"],
+    },
+    "C10": {
+        "subs": [dict(sub("C10", "run_C10", "spec_C10", W_IMPORTS + ["Run.C02", "Run.C10"], 150, 1500), proj=proj_c10)],
+        "run_modules": ["C10"],
+        "rule": "per case the crate's Ontology::hpo is swept over EVERY id 0..10^7+1 plus 16 probes up to u32::MAX (ids of the ontology shifted "
+                "by 10^7 and by 2^31: table aliasing); ontologies from the Builder and binary files with dense / sparse / border ids "
+                "(0, 1, 9 999 999); iteration and len(); gene_by_name / omim_diseases_by_name / omim_disease_by_name for full names, prefixes, "
+                "suffixes, infixes (multi-byte), the empty string and absent names; non-trivial = ontology with an id above 65 535 and >= 3 terms",
+        "trust": ["str::contains on valid UTF-8 = byte-level infix (core::str contract)"],
+        "assumptions": ["a term whose insertion panics (id >= 10^7) was never added (DESIGN.md §3.2)"],
     },
     "C11": {
         "subs": [dict(sub("C11", "run_C11", "spec_C11", W_IMPORTS + ["Run.C11"], 250, 2500), proj=proj_c11)],
